@@ -31,6 +31,7 @@ NamesSeq(fam) ==
       [] fam = "ScipyGamma"    -> <<"a", "loc", "scale">>
       [] fam = "ScipyRayleigh" -> <<"loc", "scale">>
       [] fam = "ScipyBeta"     -> <<"a", "b", "loc", "scale">>
+      [] fam = "ScipyVonMises" -> <<"kappa", "loc", "scale">>     \* only in VmSubCases below
 Names(fam) == Range(NamesSeq(fam))
 
 (* a subset of the names as the subsequence of NamesSeq (canonical JSON form) *)
@@ -46,10 +47,11 @@ PassKinds == {"kw", "pos"}                    \* overrides as keywords / positio
 Resolve(S, Ex, n) == IF n \in DOMAIN Ex THEN Ex[n] ELSE S[n]
 ResolveAll(fam, S, Ex) == [n \in Names(fam) |-> Resolve(S, Ex, n)]
 
-(* LogNormalNormFitDistribution documents: "mu_norm and sigma_norm have to be passed    *)
-(* both or not at all" (RuntimeError otherwise); every other combination is a call.     *)
-OverrideOutcome(fam, E) ==
-    IF fam = "NormFit" /\ E # {} /\ E # Names(fam) THEN "RuntimeError" ELSE "ok"
+(* Every subset of the names may be overridden in one call, for every family: a name     *)
+(* that is not passed takes the value of the instance.  (LogNormalNormFitDistribution     *)
+(* once demanded "mu_norm and sigma_norm both or not at all" and raised RuntimeError for   *)
+(* one of them - repaired in the repository; mutation "bothornone" of ParamRouting.tla.)   *)
+OverrideOutcome(fam, E) == "ok"
 
 OverrideCasesOf(fam) ==
     {<<fam, AsSeq(fam, E), m, k, p>> :
@@ -68,8 +70,16 @@ Partitions(fam) == (SUBSET Names(fam)) \ {{}}
 (*   chain1   - the first dependent parameter's function takes a second dependence       *)
 (*              function as parameter (depth 1)                                          *)
 (*   chain2   - ... whose inner function again takes a dependence function (depth 2)     *)
-Chains == {"plain", "defaults", "chain1", "chain2"}
-ChainDepth(c) == CASE c = "chain1" -> 1 [] c = "chain2" -> 2 [] OTHER -> 0
+(*   chainF   - as chain1, the dependence-function parameter is the FIRST parameter of the   *)
+(*   chainM     callable's signature / in the MIDDLE of it (chain1: last)                    *)
+(*   const    - every dependence callable is constant in the conditioning value (returns a   *)
+(*              scalar / ignores x): the value token carries the pseudo-given 0              *)
+Chains == {"plain", "defaults", "chain1", "chain2", "chainF", "chainM", "const"}
+ChainDepth(c) == CASE c \in {"chain1", "chainF", "chainM"} -> 1 [] c = "chain2" -> 2 [] OTHER -> 0
+(* the conditioning value a dependence callable of chain kind c depends on *)
+Seen(c, g) == IF c = "const" THEN 0 ELSE g
+(* quick tier: the integer-typed conditioning values are run for these chain kinds only *)
+QuickIntChains == {"plain", "const"}
 
 (* call shapes: x scalar/vector, given scalar/vector                             *)
 Shapes == {"ss", "vs", "vv", "sv"}
@@ -89,7 +99,7 @@ FirstDep(fam, D) == AsSeq(fam, D)[1]
 DepthOf(fam, D, c, n) == IF n = FirstDep(fam, D) THEN ChainDepth(c) ELSE 0
 
 CondResolve(fam, D, c, fixedPar, g) ==
-    [n \in Names(fam) |-> IF n \in D THEN Apply(n, DepthOf(fam, D, c, n), g) ELSE fixedPar[n]]
+    [n \in Names(fam) |-> IF n \in D THEN Apply(n, DepthOf(fam, D, c, n), Seen(c, g)) ELSE fixedPar[n]]
 
 CondCasesOf(fam) ==
     {<<fam, AsSeq(fam, D), c, s, m>> :
@@ -131,10 +141,22 @@ ZeroKinds == {"zero", "intzero", "negzero"}
 SpecialKinds(fam, n) ==
     IF LocLike(fam, n)
     THEN ZeroKinds \cup {"neg", "far"} \cup (IF fam = "VonMises" THEN {"wrap"} ELSE {})
+         \cup (IF fam = "LogNormal" THEN {"tiny", "huge"} ELSE {})     \* mu = 1e-9 / 25: exp/log round trip
     ELSE {"int", "far"}
 SpecialFitCasesOf(fam) ==
     UNION {{<<fam, n, k>> : k \in SpecialKinds(fam, n)} : n \in Names(fam)}
 SpecialFitCases == UNION {SpecialFitCasesOf(fam) : fam \in Families}
+
+(* a ScipyDistribution subclass of scipy's vonmises (kappa, loc, scale): scipy's fit returns *)
+(* the location wrapped into [-pi, pi] and the scale as 1 whatever was fixed, so the fixed     *)
+(* values must be kept by the wrapper.  F always contains scale (scipy does not estimate it);   *)
+(* "wrap": f_loc = 4.0.                                                                         *)
+VmSubCases == {<<AsSeq("ScipyVonMises", {"scale"}), "regular">>,
+               <<AsSeq("ScipyVonMises", {"loc", "scale"}), "regular">>,
+               <<AsSeq("ScipyVonMises", {"loc", "scale"}), "wrap">>,
+               <<AsSeq("ScipyVonMises", {"kappa", "scale"}), "regular">>}
+(* f_<name> = None passed explicitly means "not fixed": one case per family and name *)
+NoneFixCases == UNION {{<<fam, n>> : n \in Names(fam)} : fam \in Families}
 
 (* conditional distribution with fixed parameters: every non-empty proper subset fixed,  *)
 (* the others dependent                                                                  *)
